@@ -124,6 +124,17 @@ class C06(ObjCheck):
             # values of public token objects that are legitimately in clear
             pub = b"\x00".join(bytes.fromhex(v) for o in world.objs.values() if not o.private and o.token
                                for t, v in o.attrs.items() if kind_of(t) == "bytes" and isinstance(v, str) and not v.startswith(("ERR", "raw")))
+            # ... also when the API does not reveal them (a public object may be sensitive: its value is in clear on disk by design, and the key
+            # pool is small, so a private key of the same history can carry the same material): the byte strings of every object file whose
+            # CKA_PRIVATE is false, as the independent decoder reads them
+            try:
+                for td_ in token_dirs(tokendir, ref):
+                    for attrs_ in td_.objects.values():
+                        pv_ = attrs_.get(K.CKA_PRIVATE)
+                        if pv_ is not None and pv_[0] == "bool" and pv_[1] is False:
+                            pub += b"\x00" + b"\x00".join(bytes(v_[1]) for v_ in attrs_.values() if v_[0] == "bytes")
+            except (FormatError, KeyError):
+                pass
             for o in world.objs.values():
                 if not (o.private and o.token and o.alive):
                     continue
